@@ -69,6 +69,13 @@ def _atomic_conditions(text: str, truth: bool) -> List[List[Tuple[str, str, Any]
             neg = not neg
             n = n.operand
         t = t != neg
+        if isinstance(n, ast.Compare) and len(n.ops) == 1 and isinstance(n.left, ast.Attribute) and isinstance(n.left.value, ast.Name) \
+                and n.left.attr in ("prefix", "dimension") and isinstance(n.comparators[0], ast.Name) \
+                and n.comparators[0].id in ("IdentityPrefix", "Number"):
+            # `self.prefix is IdentityPrefix`: that one component of the operand is the identity
+            op = n.ops[0]
+            eq = (isinstance(op, (ast.Eq, ast.Is)) and t) or (isinstance(op, (ast.NotEq, ast.IsNot)) and not t)
+            return ("component", ("P:" if n.left.attr == "prefix" else "D:") + n.left.value.id, None) if eq else None
         if isinstance(n, ast.Compare) and len(n.ops) == 1 and isinstance(n.left, ast.Name):
             op, r = n.ops[0], n.comparators[0]
             eq = (isinstance(op, (ast.Eq, ast.Is)) and t) or (isinstance(op, (ast.NotEq, ast.IsNot)) and not t)
@@ -106,6 +113,8 @@ def subst_mono(mono: Any, subs: List[Tuple[str, str, Any]]) -> Any:
         drop = False
         for kind, name, val in subs:
             if kind == "identity" and a.split(":", 1)[-1].rstrip("+-") == name:
+                drop = True
+            if kind == "component" and a.rstrip("+-") == name:
                 drop = True
             if kind == "param":
                 t = dict(e.t)
